@@ -476,7 +476,7 @@ func init() {
 			if ctx.Tier == "thorough" {
 				return 15000000
 			}
-			return 300000
+			return 500000
 		},
 		Run: c07Run,
 		Describe: func(tier string, s *report.Stats, cases int) Evidence {
